@@ -128,6 +128,49 @@ CHECKS = {
          "low-order u and its aliases, all 16 key_agreement argument subsets from both parties' view, RFC 7748 iterated vectors.",
          "Trusted: mc/ref/ec.py (curve constants self-validated at import; Wycheproof-checked) and the exact affine Montgomery arithmetic in mc/props/_c06_ref.py.",
          "DESIGN.md 3/C06"),
+ "C04": ("exploration",
+         "bounded exhaustive enumeration of schemes x keys x hashes x a candidate-signature alphabet (bit flips, boundary r/s/S values, DER re-encodings, forged encoded messages signed with the private key) against reference verifiers; one-sided soundness oracle",
+         "RSA (1024/1025/1031/1032-bit and a 512-bit key; 2048 in thorough) PKCS#1 v1.5 over 23 hashes and PSS over 13 hashes x salt lengths, DSA on four (L,N) "
+         "pairs and ECDSA on five curves in FIPS and RFC 6979 modes x binary/DER, Ed25519/Ed448 x pure/prehash x context lengths: every produced signature "
+         "verifies and deterministic ones are byte-identical to the reference signer (FIPS mode through entropy tapes incl. rejected draws); every single-bit "
+         "flip, wrong length, s+n, (r,s) boundary pairs, 45 hand-built BER/DER re-encodings, ~150 structured PKCS#1 v1.5 forgeries and every PSS padding position "
+         "raw-signed with the private key, the complete small-order A x R x S grid for EdDSA: whatever the library accepts must be accepted by the standard's "
+         "verifier, rejection must be ValueError, hash/XOF objects must not be consumed.",
+         "Trusted: mc/ref/{rsa,dsa,ec,der}.py (Wycheproof-checked). Completeness for standard-valid signatures that sign() never emits is not demanded.",
+         "DESIGN.md 3/C04"),
+ "C05": ("exploration",
+         "small-scope exhaustive enumeration of key component tuples (all small integers), coordinate alphabets on nine curves, every encoded form, entropy tapes for generate(), against reference invariant checkers; one-sided oracle",
+         "RSA.construct on all (p,q) in [0,16]^2 ([0,40]^2 thorough) x e x d-variants x u-variants x tuple lengths, DSA.construct on all (p,q,g) with p<24/48, "
+         "ElGamal.construct with p<32/64, the same tuples through import_key; ECC on nine curves with all pairs of a 23-29 value coordinate alphabet through "
+         "EccPoint, construct, SEC1, SPKI, OpenSSH, raw, RFC 5915 and PKCS#8, scalar boundaries, private/public and seed/point mismatches, every low-order "
+         "Montgomery u and its aliases; generate() for RSA/DSA/ElGamal/ECC under seeded and boundary tapes (exact size, FIPS 186-4 margins); every single-bit flip "
+         "of every numeric field of 38 encodings. Returned keys must satisfy the invariants, invariant-violating inputs must raise ValueError (a CPU-time timer "
+         "catches calls that never return).",
+         "Trusted: mc/ref/{nt,rsa,dsa,ec}.py. Refusal of valid inputs is only logged.", "DESIGN.md 3/C05"),
+ "C08": ("exploration",
+         "bounded exhaustive enumeration of the export configuration product per key against an independent reader (strict DER, PEM, PBES2 decryptor, OpenSSH parser), plus the full equality matrix",
+         "39 (43) keys incl. RSA sizes/exponents, DSA domains and three ECC keys per curve chosen so that integers have leading-zero and high-bit octets: the full "
+         "product format x pkcs/use_pkcs8 x passphrase x 84 protection strings x prot_params x compress (4.6 k / 19 k artefacts): re-import gives identical "
+         "components, three wrong passphrases are refused, and an independent reader that never imports the library parses every artefact (canonical DER "
+         "re-serialisation, OIDs, parameters, PBES2 parameters as requested, RFC 8410/5915 structure). Equality: all ordered pairs of 127 (231) key objects incl. "
+         "public halves, copies, re-imports and near-miss variants under == and !=.",
+         "Trusted: mc/props/_c08_ref.py over mc/ref/{der,kdf,modes,aes,des,ec}.py and hashlib.", "DESIGN.md 3/C08"),
+ "C14": ("exploration",
+         "bounded exhaustive enumeration of operand pairs x operations per integer back-end against exact Python int arithmetic; primality on every integer below a bound and on computed pseudoprime families",
+         "Each of IntegerGMP/IntegerCustom/IntegerNative: all ordered pairs of a 63 (103) value boundary alphabet (word-size boundaries up to 2048 bits, signs) x 30 "
+         "binary operations in operator/in-place/int-operand forms, a complete box [-16,16]^2, modular pow and multiplication over 74 (212) moduli of 1..33 words, "
+         "all residues modulo every prime < 200 for the modular square root; primality tests on every n < 2^13 (2^17) with Miller-Rabin bases dictated through "
+         "the entropy tape, and on Carmichael/Chernick numbers, strong and Lucas pseudoprimes, prime powers, close-prime products; generated primes of every "
+         "size 160..192 etc.; primality repeated in child processes under the other two back-ends.",
+         "Trusted: Python int arithmetic, mc/ref/nt.py. Result types are C16's matter.", "DESIGN.md 3/C14"),
+ "C18": ("exploration",
+         "complete enumeration of the entropy-tape tree (every byte value at every draw, exact rational weights) up to a stated rejection depth; boundary tapes at cryptographic sizes",
+         "The entropy source is a tape: every request is a choice point over all 256^n answers. For Integer.random (1..16 bits) and random_range (the full product of "
+         "min 0..3 x width 1..300, three back-ends), StrongRandom getrandbits/randrange/randint/choice/shuffle/sample and the legacy number functions the "
+         "complete tree is enumerated (20 M executions quick, 389 M thorough): outcomes in bounds, identical exact weight for every outcome, the subtree after "
+         "each rejection identical to a fresh attempt (=> exact uniformity of the unbounded sampler), randfunc honoured. At cryptographic sizes (EC scalars on "
+         "nine curves, DSA x, FIPS-mode DSA/ECDSA nonces, RSA generation, blinding) boundary tapes 0..0, bound-1, bound, bound+1, F..F with a reference sampler.",
+         "Trusted: the 10-line reference rejection sampler; mc/ref/ec.py, dsa.py for the consumers.", "DESIGN.md 3/C18"),
 }
 NOT_YET = "check not built yet (work in progress in this session; see DESIGN.md section 3 for the planned bounded-exhaustive check)"
 man = {
